@@ -366,19 +366,47 @@ class Precondition:
             elif isinstance(condition, Precondition):
                 condition.change_signature(old_to_new_param_names)
 
+        # the iteration above only reaches the leaves: the (in)equalities of the nested conditions are renamed here.
+        self._change_equality_signature(old_to_new_param_names)
+        self._rehash_operands()
+
+    def _rehash_operands(self) -> None:
+        """Rebuilds the operand sets (bottom up) since the conditions are hashed by their text."""
+        for operand in self.operands:
+            if isinstance(operand, Precondition):
+                operand._rehash_operands()
+
+        # copying a set reuses the stored hashes, so the members are re-inserted through a list.
+        self.operands = set(list(self.operands))
+
+    def _change_equality_signature(self, old_to_new_param_names: Dict[str, str]) -> None:
+        """Renames the parameters in the (in)equality conditions of this condition and of the nested ones.
+
+        :param old_to_new_param_names: the mapping of the old parameter names to the new ones.
+        """
+        for operand in self.operands:
+            if isinstance(operand, Precondition):
+                operand._change_equality_signature(old_to_new_param_names)
+
         new_equality_conditions = set()
         new_inequality_conditions = set()
         for equality_condition in self.equality_preconditions:
             param_1, param_2 = equality_condition
             new_equality_conditions.add(
-                (old_to_new_param_names[param_1], old_to_new_param_names[param_2])
+                (
+                    old_to_new_param_names.get(param_1, param_1),
+                    old_to_new_param_names.get(param_2, param_2),
+                )
             )
 
         self.equality_preconditions = new_equality_conditions
         for inequality_condition in self.inequality_preconditions:
             param_1, param_2 = inequality_condition
             new_inequality_conditions.add(
-                (old_to_new_param_names[param_1], old_to_new_param_names[param_2])
+                (
+                    old_to_new_param_names.get(param_1, param_1),
+                    old_to_new_param_names.get(param_2, param_2),
+                )
             )
 
         self.inequality_preconditions = new_inequality_conditions
